@@ -16,7 +16,7 @@ for suf in sys.argv[1:]:
         det=json.load(open(d+'/detection.json')) if os.path.exists(d+'/detection.json') else {"failing_obligations":[]}
         obls=[o.replace('ice.','',1) for o in det.get('failing_obligations',[])][:2]
         e=desc.get(sid,{})
-        caught=', '.join('`%s`'%o for o in obls) or '?'
+        caught=', '.join('`%s`'%o for o in obls) or e.get('now') or '`vc-generation` (the contract no longer binds to the changed function)'
         if e.get('first')=='missed': caught='first missed; now '+caught
         elif e.get('first'): caught=e['first']+'; now '+caught
         print(f"| {sid} | {e.get('change','?')} | {caught} |")
